@@ -332,20 +332,44 @@ def after(words, key, k):
     return words[found + 1:found + 1 + k]
 
 
-@harness("C17",
-         # (the whole Psize state is there to be read: a rendering that recomputes a box from other fields is judged,
-         #  not undecided)
-         params={"size": PSIZE()},
-         requires=["forall(range(3), lambda i: size.ngrid[i] >= 33 and size.ngrid[i] < 100000)",
-                   "forall(range(3), lambda i: size.coarse_length[i] > 0 and size.fine_length[i] > 0)"],
-         ensures=[
-             # the file names the PQR just written (base name) and carries the suggested grid
-             "after(result.split(), 'mol', 2)[0] == 'pqr' and after(result.split(), 'mol', 2)[1] == 'out.pqr'",
-             "forall(range(3), lambda i: after(result.split(), 'dime', 3)[i] == fmt(size.ngrid[i], 'd'))",
-             "forall(range(3), lambda i: after(result.split(), 'cglen', 3)[i] == fmt(size.coarse_length[i], '.4f'))",
-             "forall(range(3), lambda i: after(result.split(), 'fglen', 3)[i] == fmt(size.fine_length[i], '.4f'))",
-         ],
-         name="Input.render")
+_RENDER_REQ = ["forall(range(3), lambda i: size.ngrid[i] >= 33 and size.ngrid[i] < 100000)",
+               "forall(range(3), lambda i: size.coarse_length[i] > 0 and size.fine_length[i] > 0)"]
+
+
+def _render_ens(base):
+    return [
+        # the file names the PQR just written (its base name, whatever its extension) and carries the suggested grid
+        f"after(result.split(), 'mol', 2)[0] == 'pqr' and after(result.split(), 'mol', 2)[1] == {base!r}",
+        "forall(range(3), lambda i: after(result.split(), 'dime', 3)[i] == fmt(size.ngrid[i], 'd'))",
+        "forall(range(3), lambda i: after(result.split(), 'cglen', 3)[i] == fmt(size.coarse_length[i], '.4f'))",
+        "forall(range(3), lambda i: after(result.split(), 'fglen', 3)[i] == fmt(size.fine_length[i], '.4f'))",
+    ]
+
+
+# (the whole Psize state is there to be read: a rendering that recomputes a box from other fields is judged, not undecided)
+@harness("C17", params={"size": PSIZE()}, requires=_RENDER_REQ, ensures=_render_ens("out.pqr"), name="Input.render")
 def render_input(size):
     inp = Input("some/dir/out.pqr", size, "mg-auto", 0, potdx=True)
+    return str(inp)
+
+
+# the user chooses the output name: nothing says it ends in lower-case ".pqr"
+@harness("C17", params={"size": PSIZE()}, requires=_RENDER_REQ, ensures=_render_ens("MOL.PQR"),
+         name="Input.render.upper_ext")
+def render_input_upper(size):
+    inp = Input("some/dir/MOL.PQR", size, "mg-auto", 0, potdx=True)
+    return str(inp)
+
+
+@harness("C17", params={"size": PSIZE()}, requires=_RENDER_REQ, ensures=_render_ens("out.pqr.new"),
+         name="Input.render.other_ext")
+def render_input_other(size):
+    inp = Input("run.1/out.pqr.new", size, "mg-auto", 0, potdx=True)
+    return str(inp)
+
+
+@harness("C17", params={"size": PSIZE()}, requires=_RENDER_REQ, ensures=_render_ens("prepared"),
+         name="Input.render.no_ext")
+def render_input_none(size):
+    inp = Input("prepared", size, "mg-auto", 0, potdx=True)
     return str(inp)
